@@ -52,6 +52,7 @@ var kindName = [4]string{"backup-read-fail", "backup-write-fail", "restore-read-
 type fault struct {
 	Kind int
 	File int
+	Once bool // transient: only the FIRST read/write of that file fails; a retry of the same operation succeeds
 }
 
 func isBackupPhase(k int) bool { return k == kBR || k == kBW }
@@ -67,16 +68,37 @@ type faultBackend struct {
 	key       func(path string) (int, bool) // storage path -> file index of the tree
 	readFail  map[int]bool
 	writeFail map[int]bool
+	readOnce  map[int]bool // subset of readFail / writeFail that fails only once
+	writeOnce map[int]bool
+	mu        sync.Mutex
+	done      map[[2]int]bool // (0 read | 1 write, file) -> the one-shot fault has fired
 	partial   bool
 	fired     *int64
 	rKind     int // which fault kind a read / write hit of this wrapper is (for the per-kind vacuity counters)
 	wKind     int
 }
 
+// spent reports (and records) whether a one-shot fault of this file has already fired.
+func (b *faultBackend) spent(rw, i int, once bool) bool {
+	if !once {
+		return false
+	}
+	b.mu.Lock()
+	defer b.mu.Unlock()
+	if b.done == nil {
+		b.done = map[[2]int]bool{}
+	}
+	if b.done[[2]int{rw, i}] {
+		return true
+	}
+	b.done[[2]int{rw, i}] = true
+	return false
+}
+
 var firedByKind [4]int64
 
 func (b *faultBackend) hitR(path string) bool {
-	if i, ok := b.key(path); ok && b.readFail[i] {
+	if i, ok := b.key(path); ok && b.readFail[i] && !b.spent(0, i, b.readOnce[i]) {
 		atomic.AddInt64(b.fired, 1)
 		atomic.AddInt64(&firedByKind[b.rKind], 1)
 		return true
@@ -84,7 +106,7 @@ func (b *faultBackend) hitR(path string) bool {
 	return false
 }
 func (b *faultBackend) hitW(path string) bool {
-	if i, ok := b.key(path); ok && b.writeFail[i] {
+	if i, ok := b.key(path); ok && b.writeFail[i] && !b.spent(1, i, b.writeOnce[i]) {
 		atomic.AddInt64(b.fired, 1)
 		atomic.AddInt64(&firedByKind[b.wKind], 1)
 		return true
@@ -263,18 +285,33 @@ func backupKey(t *tree) func(string) (int, bool) {
 	}
 }
 
-func newManager(t *tree, dataDir, backupDir string, dataR, dataW, bkR, bkW map[int]bool, partial bool, fired *int64) *backup.Manager {
+func onceMaps(fs []fault, rk, wk int) (map[int]bool, map[int]bool) {
+	r, w := map[int]bool{}, map[int]bool{}
+	for _, f := range fs {
+		if f.Once && f.Kind == rk {
+			r[f.File] = true
+		}
+		if f.Once && f.Kind == wk {
+			w[f.File] = true
+		}
+	}
+	return r, w
+}
+
+func newManager(t *tree, dataDir, backupDir string, fs []fault, dataR, dataW, bkR, bkW map[int]bool, partial bool, fired *int64) *backup.Manager {
+	dataRO, dataWO := onceMaps(fs, kBR, kRW)
+	bkRO, bkWO := onceMaps(fs, kRR, kBW)
 	local, err := storage.NewLocalBackend(dataDir, nop)
 	if err != nil {
 		ev.Unbound("NewLocalBackend: " + err.Error())
 	}
-	ds := &faultBackend{Backend: local, key: dataKey(t), readFail: dataR, writeFail: dataW, partial: partial, fired: fired, rKind: kBR, wKind: kRW}
+	ds := &faultBackend{Backend: local, key: dataKey(t), readFail: dataR, writeFail: dataW, readOnce: dataRO, writeOnce: dataWO, partial: partial, fired: fired, rKind: kBR, wKind: kRW}
 	m, err := backup.NewManager(&backup.ManagerConfig{DataStorage: ds, BackupPath: backupDir, Logger: nop})
 	if err != nil {
 		ev.Unbound("backup.NewManager: " + err.Error())
 	}
 	m.VerifWrapBackupStorage(func(inner storage.Backend) storage.Backend {
-		return &faultBackend{Backend: inner, key: backupKey(t), readFail: bkR, writeFail: bkW, partial: partial, fired: fired, rKind: kRR, wKind: kBW}
+		return &faultBackend{Backend: inner, key: backupKey(t), readFail: bkR, writeFail: bkW, readOnce: bkRO, writeOnce: bkWO, partial: partial, fired: fired, rKind: kRR, wKind: kBW}
 	})
 	return m
 }
@@ -316,7 +353,7 @@ func runBackup(t *tree, fs []fault, partial bool, dir string) backupObs {
 	var o backupObs
 	dr, _ := faultMaps(fs, kBR, -1)
 	_, bw := faultMaps(fs, -1, kBW)
-	m := newManager(t, dataDir, backupDir, dr, nil, nil, bw, partial, &o.Fired)
+	m := newManager(t, dataDir, backupDir, fs, dr, nil, nil, bw, partial, &o.Fired)
 	res, err := m.CreateBackup(context.Background(), backup.BackupOptions{})
 	if err != nil {
 		o.Err = err.Error()
@@ -357,7 +394,7 @@ func runRestore(t *tree, fs []fault, partial bool, backupDir, id, restoreDir str
 	var o restoreObs
 	br, _ := faultMaps(fs, kRR, -1)
 	_, dw := faultMaps(fs, -1, kRW)
-	m := newManager(t, restoreDir, backupDir, nil, dw, br, nil, partial, &o.Fired)
+	m := newManager(t, restoreDir, backupDir, fs, nil, dw, br, nil, partial, &o.Fired)
 	_, err := m.RestoreBackup(context.Background(), backup.RestoreOptions{BackupID: id, RestoreData: true})
 	if err != nil {
 		o.Err = err.Error()
@@ -502,6 +539,9 @@ func atom(c kase, f fault) string {
 	if (isBackupPhase(f.Kind) && c.PartialB) || (!isBackupPhase(f.Kind) && c.PartialR) {
 		n += "-partial"
 	}
+	if f.Once {
+		n += "-once"
+	}
 	return n + "(" + c.T.Files[f.File].Role + ")"
 }
 
@@ -571,6 +611,16 @@ func minimise(c kase, kind string, execs *int64) kase {
 		}
 		if fails(x) {
 			cur = x
+		}
+	}
+	for i := range cur.F {
+		if cur.F[i].Once { // prefer the persistent form of a fault when the failure does not need a successful retry
+			x := cur
+			x.F = append([]fault{}, cur.F...)
+			x.F[i].Once = false
+			if fails(x) {
+				cur = x
+			}
 		}
 	}
 	if cur.PartialB {
@@ -783,6 +833,14 @@ func subsets(n, k int, emit func([]int)) {
 	}
 }
 
+func onceOf(fs []fault) []fault {
+	o := append([]fault{}, fs...)
+	for i := range o {
+		o[i].Once = true
+	}
+	return o
+}
+
 func toFaults(pts []int, readKind, writeKind int) []fault {
 	var fs []fault
 	for _, p := range pts {
@@ -790,7 +848,7 @@ func toFaults(pts []int, readKind, writeKind int) []fault {
 		if p%2 == 1 {
 			k = writeKind
 		}
-		fs = append(fs, fault{k, p / 2})
+		fs = append(fs, fault{Kind: k, File: p / 2})
 	}
 	return fs
 }
@@ -916,7 +974,11 @@ func main() {
 				for _, k := range judgeBackup(tk.fs, o) {
 					cl.report(kase{T: tk.t, F: tk.fs, PartialB: tk.partial}, k)
 				}
-				if o.Completed {
+				if o.Completed && len(tk.fs) > 0 && tk.fs[0].Once {
+					// a backup under transient faults is judged, but not kept as a start state of the restore stage
+					// (the persistent form of the same fault set is)
+					os.RemoveAll(dir)
+				} else if o.Completed {
 					os.RemoveAll(filepath.Join(dir, "data"))
 					smu.Lock()
 					states = append(states, &state{tk.t, tk.fs, tk.partial, dir, o})
@@ -939,6 +1001,10 @@ func main() {
 			if len(fs) > 0 {
 				bch <- btask{t, fs, true}
 				bsets[t.Name]++
+				// transient form of the same fault set (each fault fires once; a retry inside the code would succeed)
+				bch <- btask{t, onceOf(fs), false}
+				bch <- btask{t, onceOf(fs), true}
+				bsets[t.Name] += 2
 			}
 		})
 	}
@@ -1016,7 +1082,11 @@ func main() {
 				}
 				chunk = append(chunk, toFaults(p, kRR, kRW))
 				rsets[s.T.Name]++
-				if len(chunk) == 128 {
+				if len(p) > 0 { // transient form: the first read/write of each chosen file fails, a retry succeeds
+					chunk = append(chunk, onceOf(toFaults(p, kRR, kRW)))
+					rsets[s.T.Name]++
+				}
+				if len(chunk) >= 128 {
 					rch <- rtask{s, chunk, partial}
 					chunk = nil
 				}
@@ -1066,7 +1136,7 @@ func main() {
 	run.Coverage["minimisations"] = cl.mins
 	run.Coverage["minimisation_executions"] = cl.execs
 	run.Coverage["trees"] = treeDesc
-	run.Coverage["rule"] = "fault points = files x {backup-read-fail, backup-write-fail, restore-read-fail, restore-write-fail}, each in mode early (error before any byte moves) or partial (error after half the bytes); " +
+	run.Coverage["rule"] = "fault points = files x {backup-read-fail, backup-write-fail, restore-read-fail, restore-write-fail}, each in mode early (error before any byte moves) or partial (error after half the bytes), and each fault set both persistent (every attempt on that file fails) and transient (only the first attempt fails, a retry inside the code under test would succeed); " +
 		"for each tree every set B of backup-side points (within the bound listed under trees) is run through the real CreateBackup; for every B whose backup completed, every set R of restore-side points is run through the real RestoreBackup into empty storage " +
 		"(a failed backup leaves nothing to restore, so B x R is covered without running R after a failed B); each (tree,B,modeB,R,modeR) is a distinct case; non-trivial = at least one injected fault was actually hit by the code under test"
 	run.Coverage["samples"] = samples.List()
